@@ -12,6 +12,7 @@ import BezierVerif.Gen.Curv
 import BezierVerif.Gen.Dist
 import BezierVerif.Gen.Length
 import BezierVerif.Gen.Lookup
+import BezierVerif.Gen.Inter
 
 namespace Driver
 
@@ -53,6 +54,7 @@ def genDispatch (tbl : FnTable) (name : String) (args : List ℚ) : Option (List
   <|> (Gen.dispatchDist tbl name args)
   <|> (Gen.dispatchLength tbl name args)
   <|> (Gen.dispatchLookup tbl name args)
+  <|> (Gen.dispatchInter tbl name args)
 
 def words (s : String) : List String := (s.splitOn " ").filter (· ≠ "")
 
